@@ -29,6 +29,9 @@ Record rcase := mkrc {
   rc_chunk : option Z;      (* chunk_size of the GenotypesPLINK reader *)
   rc_strict_samples : bool; (* harness switch: also demand "empty result + warning, no exception" when the
                                sample restriction selects no sample (cyvcf2/pgenlib raise; default false) *)
+  rc_vcf_noregion : bool;   (* the VCF/BCF file was written without an index (its records need not be sorted then):
+                               htslib cannot answer a region query, so the VCF reader is given the query without
+                               its region; the PGEN reader gets the whole query *)
   rc_vcf : fobs;
   rc_pgen : fobs
 }.
@@ -37,12 +40,18 @@ Definition q_all : query := mkq None None None None.
 
 Definition iter_eqb := pair_eqb (list_eqb Z.eqb) (list_eqb vrec_eqb).
 
+Definition q_noregion (q : query) : query := mkq None (q_samples q) (q_ids q) (q_max q).
+
+(* the query the VCF reader is given *)
+Definition vcf_q (k : rcase) : query := if rc_vcf_noregion k then q_noregion (rc_q k) else rc_q k.
+
 Definition model_read (k : rcase) :=
   let c := rc_c k in let q := rc_q k in
-  ((vcf_read_q c q_all, vcf_read_q c q, vcf_iter_q c q),
-   (pgen_read_q pload_std false (rc_chunk k) c q_all,
-    pgen_read_q pload_std false (rc_chunk k) c q,
-    pgen_iter_q pload_std false c q)).
+  let fx := rc_strict_samples k in   (* true: the readers with fixes/C08_empty_sample_selection.patch *)
+  ((vcf_read_x fx c q_all, vcf_read_x fx c (vcf_q k), vcf_iter_x fx c (vcf_q k)),
+   (pgen_read_x pload_std fx (rc_chunk k) c q_all,
+    pgen_read_x pload_std fx (rc_chunk k) c q,
+    pgen_iter_x pload_std fx c q)).
 
 Definition agree_read (k : rcase) : bool :=
   let '((vf, vr, vi), (pf, pr, pi)) := model_read k in
@@ -120,13 +129,14 @@ Definition holds_cross (k : rcase) : bool :=
   | _, _ => true
   end
   && (negb (cross_comparable (rc_c k) (rc_q k))
+      || (rc_vcf_noregion k && match q_region (rc_q k) with Some _ => true | None => false end)
       || match fo_read (rc_vcf k), fo_read (rc_pgen k) with
          | Ok a, Ok b => geno_samegt a b
          | _, _ => true
          end).
 
 Definition holds_read (k : rcase) : bool :=
-  holds_fmt (rc_strict_samples k) (rc_q k) (rc_vcf k)
+  holds_fmt (rc_strict_samples k) (vcf_q k) (rc_vcf k)
   && holds_fmt (rc_strict_samples k) (rc_q k) (rc_pgen k) && holds_cross k.
 
 Definition check_read (k : rcase) : bool * bool := (agree_read k, holds_read k).
@@ -184,3 +194,112 @@ Definition holds_subset (k : scase) : bool :=
 
 Definition check_subset (k : scase) : bool * bool :=
   (res_eqb geno_eqb (model_subset k) (sc_obs k), holds_subset k).
+
+(* ---- read(), then a sequence of subset() calls on the loaded object ---------------- *)
+(* One case of the [seq] relation = one file (VCF/BCF or PGEN), one query; observed:
+   read() of everything, read(query), then  full.subset(samples of the restricted read,
+   IDs of the restricted read)  ("read everything, then subset"), then a sequence of
+   subset() calls - copying and in place - starting on the object of the restricted
+   read; before every call the object it is made on is dumped.
+   [agree]: the model reproduces every observation (so a copying subset leaves the
+   object alone and an in-place one replaces it).
+   [holds], from the observations alone: the restricted read is the full read filtered
+   in file order; read(everything)+subset gives the same samples, variants and calls as
+   the restricted read; every subset() call returns the requested known samples and
+   variants in the requested order, each cell being the one its names denote in the
+   object the call was made on (the dump taken just before the call). *)
+
+Record sstep := mkss {
+  ss_S : option (list Z); ss_V : option (list Z);
+  ss_keep : bool;            (* in place, or the caller goes on with the returned copy *)
+  ss_before : res geno;      (* the object the call is made on, dumped just before *)
+  ss_obs : res geno          (* the returned object / the object after an in-place call *)
+}.
+
+Record qcase := mkqc {
+  qc_c : geno; qc_q : query;
+  qc_pgen : bool;                 (* GenotypesPLINK on .pgen, else GenotypesVCF on .vcf/.vcf.gz/.bcf *)
+  qc_chunk : option Z;
+  qc_strict_samples : bool;       (* switch STRICT_EMPTY_SAMPLE_SELECTION *)
+  qc_strict_nocells : bool;       (* switch STRICT_SUBSET_AFTER_EMPTY_READ *)
+  qc_full : res geno; qc_read : res geno; qc_warned : bool;
+  qc_comp : option (res geno);    (* None: not performed because a read raised *)
+  qc_steps : list sstep
+}.
+
+Definition model_seq (k : qcase) :=
+  let c := qc_c k in
+  let rdq := fun q => if qc_pgen k then pgen_read_x pload_std (qc_strict_samples k) (qc_chunk k) c q
+                      else vcf_read_x (qc_strict_samples k) c q in
+  let full := rdq q_all in
+  let rd := rdq (qc_q k) in
+  let comp := match full, rd with
+              | Ok f, Ok r => Some (subset_impl (qc_strict_nocells k) f (Some (g_samples r))
+                                                 (Some (map v_id (g_variants r))))
+              | _, _ => None
+              end in
+  (full, rd, comp,
+   match rd with
+   | Ok g => run_subsets (qc_strict_nocells k) g (map (fun s => (ss_S s, ss_V s, ss_keep s)) (qc_steps k))
+   | Err _ => []
+   end).
+
+Definition agree_seq (k : qcase) : bool :=
+  let '(full, rd, comp, steps) := model_seq k in
+  res_eqb geno_eqb full (qc_full k) && res_eqb geno_eqb rd (qc_read k)
+  && opt_eqb (res_eqb geno_eqb) comp (qc_comp k)
+  && list_eqb (pair_eqb (res_eqb geno_eqb) (res_eqb geno_eqb))
+       (map (fun x : geno * res geno => (Ok (fst x), snd x)) steps)
+       (map (fun s => (ss_before s, ss_obs s)) (qc_steps k)).
+
+(* the bulk-read part of holds_fmt *)
+Definition holds_rd (q : query) (full rd : geno) (warned : bool) : bool :=
+  let m := keep_mask (q_samples q) (g_samples full) in
+  let sel := expected q full rd in
+  list_eqb Z.eqb (g_samples rd) (mask m (g_samples full))
+  && list_eqb variant_eqb (g_variants rd) (map fst sel)
+  && (if is_nil sel then is_nil (g_rows rd) && warned
+      else rows_eqb (g_rows rd) (map (fun x : vrec => mask m (snd x)) sel)).
+
+(* an object whose array has no cells although it lists samples or variants: what a VCF
+   read that matched nothing leaves behind *)
+Definition hollow (g : geno) : bool :=
+  no_cells g && (negb (is_nil (g_samples g)) || negb (is_nil (g_variants g))).
+
+Definition holds_step (strict_nocells : bool) (s : sstep) : bool :=
+  match ss_before s with
+  | Err _ => true
+  | Ok b => if hollow b && negb strict_nocells then true
+            else holds_subset (mksc b (ss_S s) (ss_V s) (ss_obs s))
+  end.
+
+Definition holds_comp (strict_nocells : bool) (full rd : geno) (comp : option (res geno)) : bool :=
+  match comp with
+  | Some (Ok cp) =>
+      list_eqb Z.eqb (g_samples cp) (g_samples rd)
+      && list_eqb variant_eqb (g_variants cp) (g_variants rd)
+      && rows_eqb (g_rows cp) (g_rows rd)
+  | Some (Err _) => hollow full && negb strict_nocells
+  | None => false
+  end.
+
+Definition holds_seq (k : qcase) : bool :=
+  forallb (holds_step (qc_strict_nocells k)) (qc_steps k)
+  && match qc_full k with
+     | Err _ => false
+     | Ok full =>
+       let q := qc_q k in
+       if is_nil (mask (keep_mask (q_samples q) (g_samples full)) (g_samples full)) then
+         negb (qc_strict_samples k)
+         || match qc_read k with
+            | Ok rd => is_nil (g_samples rd) && forallb is_nil (g_rows rd) && qc_warned k
+            | Err _ => false
+            end
+       else
+         match qc_read k with
+         | Err _ => false
+         | Ok rd => holds_rd q full rd (qc_warned k) && holds_comp (qc_strict_nocells k) full rd (qc_comp k)
+         end
+     end.
+
+Definition check_seq (k : qcase) : bool * bool := (agree_seq k, holds_seq k).
